@@ -22,7 +22,7 @@ MANIFEST = {
           'held datapoints whenever the lock is free. Exhaustive within the stated programs and bounds.',
   'note': 'Trusted: the explorer (self-tested), the dict reference, CPython line-event tracing. Not covered: '
           'more preemptions than the completed bound, alphabets beyond 2-3 metrics x 2 timestamps, randomised '
-          'schedules (another technique family). Limits come from the real start-up path; thrx jobs use sub-second timestamps sharing one second, arriving newest-first; the sequential search lets another buffer raise the shared cacheFull event and uses timestamps ahead of the clock.',
+          'schedules (another technique family). Limits come from the real start-up path; thrx jobs use sub-second timestamps sharing one second, arriving newest-first; the sequential search lets another buffer raise the shared cacheFull event and uses timestamps ahead of the clock. The value alphabet contains 0.0 (falsy values are datapoints too); which stored values are zero is part of the canonical state.',
 }
 
 STRATEGIES = ('sorted', 'max', 'naive', 'timesorted', 'bucketmax', 'random')
